@@ -9,15 +9,24 @@ From Coq Require Import Sorting.Sorted.
 From SeqIO Require Import Model.Base Model.Fasta Proofs.FastaScanP Proofs.FastaInitP
      Proofs.TraceP Proofs.FaTraceP Proofs.GrowP.
 
-(** offsets of the FASTA reader are sane: [start <= search_pos <= |buffer|], all
+(** offsets of the FASTA reader are in range: [start <= search_pos <= |buffer|], all
     recorded line ends are at or after [start]; a reader that has not yet found
     its first record has all offsets at 0 *)
-Definition FaSane (r : fa) : Prop :=
+Definition FaOff (r : fa) : Prop :=
   start r <= spos r /\ spos r <= length (buf r) /\ Forall (fun x => start r <= x) (seqpos r) /\
   (st r = FNew -> start r = 0 /\ spos r = 0 /\ seqpos r = []).
 
+(** The sanity predicate: a [Finished] reader needs nothing (it answers every read
+    with end of input and [seek] re-establishes the offsets; after a failed
+    refill its buffer has been dropped, so the offsets may well lie outside);
+    every other reader has its offsets in range. *)
+Definition FaSane (r : fa) : Prop := st r = FFinished \/ FaOff r.
+
+Lemma fa_new_off c s p : FaOff (fa_new c s p).
+Proof. unfold FaOff. cbn. splits; auto. Qed.
+
 Lemma fa_new_sane c s p : FaSane (fa_new c s p).
-Proof. unfold FaSane. cbn. splits; auto. Qed.
+Proof. right. apply fa_new_off. Qed.
 
 Lemma all_geb_Forall l n : all_geb l n = true <-> Forall (fun x => n <= x) l.
 Proof.
@@ -27,34 +36,34 @@ Proof.
   - intros H. inversion H; subst. auto.
 Qed.
 
-Lemma fa_fill_sane ffuel r r' fr : fa_fill ffuel r = (r', fr) -> FaSane r -> FaSane r' /\ st r' = st r.
+Lemma fa_fill_sane ffuel r r' fr : fa_fill ffuel r = (r', fr) -> FaOff r -> FaOff r' /\ st r' = st r.
 Proof.
   intros H (S1 & S2 & S3 & S4).
   destruct (fa_fill_run false _ _ _ _ H) as (_ & _ & Hst & Hs & Hsp & Hsq & _ & _ & (ap & Hb) & _).
-  unfold FaSane. rewrite Hst, Hs, Hsp, Hsq, Hb, app_length. splits; auto. lia.
+  unfold FaOff. rewrite Hst, Hs, Hsp, Hsq, Hb, app_length. splits; auto. lia.
 Qed.
 
-Lemma fa_grow_sane r r' g : fa_grow r = (r', g) -> FaSane r -> FaSane r' /\ st r' = st r /\ (forall s, g <> GPanic s).
+Lemma fa_grow_sane r r' g : fa_grow r = (r', g) -> FaOff r -> FaOff r' /\ st r' = st r /\ (forall s, g <> GPanic s).
 Proof.
   intros H (S1 & S2 & S3 & S4).
   destruct (fa_grow_run false _ _ _ H (no_ex' _)) as (_ & Hst & Hs & Hsp & Hsq & Hb & _).
-  unfold FaSane. rewrite Hst, Hs, Hsp, Hsq, Hb. splits; auto.
+  unfold FaOff. rewrite Hst, Hs, Hsp, Hsq, Hb. splits; auto.
   intros s ->. unfold fa_grow in H. destruct (polf r (polh r) (cap r)) as [n|]; [destruct (n <=? cap r)|]; inversion H.
 Qed.
 
-Lemma fa_make_room_sane r r' g : fa_make_room r = (r', g) -> FaSane r -> FaSane r' /\ st r' = st r /\ g = GOk.
+Lemma fa_make_room_sane r r' g : fa_make_room r = (r', g) -> FaOff r -> FaOff r' /\ st r' = st r /\ g = GOk.
 Proof.
   intros H (S1 & S2 & S3 & S4). unfold fa_make_room in H.
   assert (E1 : (spos r <? start r) = false) by (apply Nat.ltb_ge; exact S1).
   assert (E2 : all_geb (seqpos r) (start r) = true) by (apply all_geb_Forall; exact S3).
-  rewrite E1, E2 in H. cbn [orb negb] in H. inversion H; subst. unfold FaSane. fa_simpl.
+  rewrite E1, E2 in H. cbn [orb negb] in H. inversion H; subst. unfold FaOff. fa_simpl.
   rewrite skipn_length. splits; auto; try lia.
   - apply Forall_forall. intros x Hx. lia.
   - intros Hn. destruct (S4 Hn) as (A & B & C). rewrite B, C. auto.
 Qed.
 
-Lemma fa_search_sane r r' sr : fa_search r = (r', sr) -> FaSane r -> st r <> FNew ->
-  FaSane r' /\ st r' <> FNew /\ (forall s, sr <> SPanic s).
+Lemma fa_search_sane r r' sr : fa_search r = (r', sr) -> FaOff r -> st r <> FNew ->
+  FaOff r' /\ st r' <> FNew /\ (forall s, sr <> SPanic s).
 Proof.
   intros H (S1 & S2 & S3 & S4) Hn. unfold fa_search in H.
   assert (E1 : (length (buf r) <? spos r) = false) by (apply Nat.ltb_ge; exact S2).
@@ -65,31 +74,35 @@ Proof.
   assert (Hsq : Forall (fun x => start r <= x) (seqpos r ++ new)).
   { apply Forall_app. split; [exact S3|]. eapply Forall_impl; [|exact Hnew]. cbn. intros; lia. }
   destruct found.
-  { inversion H; subst. unfold FaSane. fa_simpl. splits; auto; try lia; try discriminate. intros Hx; contradiction. }
+  { inversion H; subst. unfold FaOff. fa_simpl. splits; auto; try lia; try discriminate. intros Hx; contradiction. }
   cbn [buf cap set_seqpos set_spos] in H.
-  destruct (length (buf r) <? cap r); inversion H; subst; unfold FaSane; fa_simpl; splits; auto; try lia;
+  destruct (length (buf r) <? cap r); inversion H; subst; unfold FaOff; fa_simpl; splits; auto; try lia;
     try discriminate.
   apply Forall_app. split; [exact Hsq|]. constructor; [lia|constructor].
 Qed.
 
-Lemma fa_increment_sane r : FaSane r -> st r <> FNew ->
-  exists r', fa_increment r = Some r' /\ FaSane r' /\ st r' = st r.
+Lemma fa_increment_sane r : FaOff r -> st r <> FNew ->
+  exists r', fa_increment r = Some r' /\ FaOff r' /\ st r' = st r.
 Proof.
   intros (S1 & S2 & S3 & S4) Hn. unfold fa_increment.
   assert (E1 : (spos r <? start r) = false) by (apply Nat.ltb_ge; exact S1). rewrite E1.
-  eexists. split; [reflexivity|]. unfold FaSane. fa_simpl. splits; auto. intros Hx; contradiction.
+  eexists. split; [reflexivity|]. unfold FaOff. fa_simpl. splits; auto. intros Hx; contradiction.
 Qed.
 
-Lemma FaSane_set_st r s : FaSane r -> s <> FNew -> FaSane (set_st r s).
-Proof. intros (A & B & C & D) Hs. unfold FaSane. fa_simpl. splits; auto. intros Hx; contradiction. Qed.
+Lemma FaOff_set_st r s : FaOff r -> s <> FNew -> FaOff (set_st r s).
+Proof. intros (A & B & C & D) Hs. unfold FaOff. fa_simpl. splits; auto. intros Hx; contradiction. Qed.
 
+(** the search loop: no panic; afterwards the offsets are in range, except after
+    the (final) I/O error, which drops the buffer and finishes the reader *)
 Lemma fa_resume_sane ffuel mk : forall fuel r r' res, fa_resume fuel ffuel mk r = (r', res) ->
-  FaSane r -> st r <> FNew -> FaSane r' /\ st r' <> FNew /\ (forall s, res <> RsPanic s).
+  FaOff r -> st r <> FNew ->
+  (FaOff r' \/ ((exists k, res = RsErr (FaIo k)) /\ st r' = FFinished)) /\ st r' <> FNew /\
+  (forall s, res <> RsPanic s).
 Proof.
   induction fuel as [|f IH]; intros r r' res H S Hn; cbn [fa_resume] in H.
   { inversion H; subst. splits; auto. discriminate. }
   destruct (if negb mk || (start r =? 0) then fa_grow r else fa_make_room r) as [r1 g] eqn:E1.
-  assert (H1 : FaSane r1 /\ st r1 = st r /\ (forall s, g <> GPanic s)).
+  assert (H1 : FaOff r1 /\ st r1 = st r /\ (forall s, g <> GPanic s)).
   { destruct (negb mk || (start r =? 0)).
     - apply (fa_grow_sane _ _ _ E1 S).
     - destruct (fa_make_room_sane _ _ _ E1 S) as (A & B & ->). splits; auto. discriminate. }
@@ -97,7 +110,7 @@ Proof.
   destruct g as [|e|s]; [|inversion H; subst; splits; auto; [congruence|discriminate]|exfalso; apply (Hg s); reflexivity].
   destruct (fa_fill ffuel r1) as [r2 fr] eqn:E2. destruct (fa_fill_sane _ _ _ _ E2 S1) as [S2 Hst2].
   assert (Hn2 : st r2 <> FNew) by congruence.
-  destruct fr as [n|k|]; [|inversion H; subst; splits; [apply FaSane_set_st; [exact S2|discriminate]|discriminate|discriminate]
+  destruct fr as [n|k|]; [|inversion H; subst; splits; [right; split; [exists k; reflexivity|reflexivity]|discriminate|discriminate]
                           |inversion H; subst; splits; auto; discriminate].
   destruct (fa_search r2) as [r3 sr] eqn:E3. destruct (fa_search_sane _ _ _ E3 S2 Hn2) as (S3 & Hn3 & Hp3).
   destruct sr as [[|]|s]; [inversion H; subst; splits; auto; discriminate| |exfalso; apply (Hp3 s); reflexivity].
@@ -121,22 +134,22 @@ Proof.
   - apply IH in H. cbn [buf start spos seqpos st set_buf set_pbyte] in H. destruct H as (A & B & C & D & E). splits; auto; congruence.
 Qed.
 
-Lemma fa_init_sane fuel ffuel r r' res : fa_init fuel ffuel r = (r', res) -> FaSane r -> st r = FNew ->
+Lemma fa_init_sane fuel ffuel r r' res : fa_init fuel ffuel r = (r', res) -> FaOff r -> st r = FNew ->
   match res with
-  | IOk true => forall s, s <> FNew -> FaSane (set_st r' s)
-  | _ => FaSane r' /\ (st r' = FNew \/ st r' = FFinished)
+  | IOk true => forall s, s <> FNew -> FaOff (set_st r' s)
+  | _ => FaOff r' /\ (st r' = FNew \/ st r' = FFinished)
   end.
 Proof.
   unfold fa_init. intros H (S1 & S2 & S3 & S4) Hn. destruct (S4 Hn) as (A & B & C).
   destruct (fa_first_byte fuel ffuel r 0) as [r1 fb] eqn:E1.
   destruct (fa_first_byte_frame _ _ _ _ _ _ E1) as (Hs & Hsp & Hsq & Hst & Hpos).
-  assert (Sane1 : forall s, FaSane (set_st r1 s)).
-  { intros s. unfold FaSane. fa_simpl. rewrite Hs, Hsp, Hsq, A, B, C. splits; auto; lia. }
-  assert (Sane1' : FaSane r1).
-  { unfold FaSane. rewrite Hs, Hsp, Hsq, A, B, C. splits; auto; lia. }
+  assert (Sane1 : forall s, FaOff (set_st r1 s)).
+  { intros s. unfold FaOff. fa_simpl. rewrite Hs, Hsp, Hsq, A, B, C. splits; auto; lia. }
+  assert (Sane1' : FaOff r1).
+  { unfold FaOff. rewrite Hs, Hsp, Hsq, A, B, C. splits; auto; lia. }
   destruct fb as [ln pos b| |k|].
   - specialize (Hpos _ _ _ eq_refl). destruct (b =? GT).
-    + inversion H; subst. intros s Hs'. unfold FaSane. fa_simpl. rewrite Hsq, C. splits; auto; try lia.
+    + inversion H; subst. intros s Hs'. unfold FaOff. fa_simpl. rewrite Hsq, C. splits; auto; try lia.
       intros Hx; contradiction.
     + inversion H; subst. split; [apply Sane1|right; reflexivity].
   - inversion H; subst. split; [apply Sane1|right; reflexivity].
@@ -145,50 +158,51 @@ Proof.
 Qed.
 
 Lemma fa_next_tail_sane fuel ffuel r r' o : fa_next_tail fuel ffuel r = (r', o) ->
-  FaSane r -> st r <> FNew -> FaSane r' /\ st r' <> FNew /\ (forall s, o <> OPanic s).
+  FaOff r -> st r <> FNew -> FaSane r' /\ (forall s, o <> OPanic s).
 Proof.
   unfold fa_next_tail. intros H S Hn.
   destruct (if fa_state_eqb (st r) FIncomplete then (r, SFound true) else fa_search r) as [r1 sr] eqn:E1.
-  assert (H1 : FaSane r1 /\ st r1 <> FNew /\ (forall s, sr <> SPanic s)).
+  assert (H1 : FaOff r1 /\ st r1 <> FNew /\ (forall s, sr <> SPanic s)).
   { destruct (fa_state_eqb (st r) FIncomplete).
     - inversion E1; subst. splits; auto. discriminate.
     - apply (fa_search_sane _ _ _ E1 S Hn). }
   destruct H1 as (S1 & Hn1 & Hp1).
   destruct sr as [b|s]; [|exfalso; apply (Hp1 s); reflexivity].
-  destruct (fa_state_eqb (st r1) FIncomplete); [|inversion H; subst; splits; auto; discriminate].
+  destruct (fa_state_eqb (st r1) FIncomplete); [|inversion H; subst; split; [right; exact S1|discriminate]].
   destruct (fa_resume fuel ffuel true r1) as [r2 rr] eqn:E2.
   destruct (fa_resume_sane _ _ _ _ _ _ E2 S1 Hn1) as (S2 & Hn2 & Hp2).
-  destruct rr as [[|]|e|s|]; inversion H; subst; splits; auto; try discriminate.
-  - destruct (fa_state_eqb (st r2) FFinished); [exact S2|].
-    destruct S2 as (A & B & C & D). unfold FaSane. fa_simpl. splits; auto. discriminate.
-  - destruct (fa_state_eqb (st r2) FFinished); [exact Hn2|discriminate].
-  - exfalso; apply (Hp2 s); reflexivity.
+  assert (Sane2 : FaSane r2) by (destruct S2 as [S2|[_ Hf]]; [right; exact S2|left; exact Hf]).
+  destruct rr as [[|]|e|s|]; inversion H; subst; (split; [|discriminate || idtac]); try exact Sane2.
+  - destruct S2 as [S2|[[k Hk] _]]; [|discriminate Hk].
+    destruct (fa_state_eqb (st r2) FFinished); [right; exact S2|]. right. apply FaOff_set_st; [exact S2|discriminate].
+  - intros s0 Hs0. apply (Hp2 s). reflexivity.
 Qed.
 
 Theorem fa_next_sane fuel ffuel r r' o : fa_next fuel ffuel r = (r', o) -> FaSane r ->
   FaSane r' /\ (forall s, o <> OPanic s).
 Proof.
-  unfold fa_next. intros H S. destruct (st r) eqn:Es.
+  unfold fa_next. intros H [Hfin|S].
+  { rewrite Hfin in H. inversion H; subst. split; [left; exact Hfin|discriminate]. }
+  destruct (st r) eqn:Es.
   - destruct (fa_init fuel ffuel r) as [r1 ir] eqn:E1. pose proof (fa_init_sane _ _ _ _ _ E1 S Es) as Hi.
-    destruct ir as [[|]|e|]; try (inversion H; subst; split; [apply Hi|discriminate]).
-    destruct (fa_next_tail_sane _ _ (set_st r1 FParsing) _ _ H) as (A & _ & C); auto; try discriminate.
-    apply Hi. discriminate.
+    destruct ir as [[|]|e|]; try (inversion H; subst; split; [right; apply Hi|discriminate]).
+    apply (fa_next_tail_sane _ _ (set_st r1 FParsing) _ _ H); [apply Hi|]; discriminate.
   - destruct (fa_increment_sane r S) as (r1 & E1 & S1 & Hst1); [congruence|]. rewrite E1 in H.
-    destruct (fa_next_tail_sane _ _ _ _ _ H S1) as (A & _ & C); auto. congruence.
-  - destruct (fa_next_tail_sane _ _ _ _ _ H S) as (A & _ & C); auto. congruence.
-  - destruct (fa_next_tail_sane _ _ (set_st r FParsing) _ _ H) as (A & _ & C); auto; try discriminate.
-    apply FaSane_set_st; [exact S|discriminate].
-  - inversion H; subst. split; [exact S|discriminate].
+    apply (fa_next_tail_sane _ _ _ _ _ H S1). congruence.
+  - apply (fa_next_tail_sane _ _ _ _ _ H S). congruence.
+  - apply (fa_next_tail_sane _ _ (set_st r FParsing) _ _ H); [|discriminate].
+    apply FaOff_set_st; [exact S|discriminate].
+  - inversion H; subst. split; [left; exact Es|discriminate].
 Qed.
 
 Lemma fa_set_loop_sane rfuel ffuel : forall fuel n is_new r rs r' rs' res,
-  fa_set_loop fuel rfuel ffuel n is_new r rs = (r', rs', res) -> FaSane r -> st r <> FNew ->
+  fa_set_loop fuel rfuel ffuel n is_new r rs = (r', rs', res) -> FaOff r -> st r <> FNew ->
   FaSane r' /\ (forall s, res <> LPanic s).
 Proof.
   induction fuel as [|f IH]; intros n is_new r rs r' rs' res H S Hn; cbn [fa_set_loop] in H.
-  { inversion H; subst. split; [exact S|discriminate]. }
-  destruct (fa_state_eqb (st r) FFinished); [inversion H; subst; split; [exact S|discriminate]|].
-  assert (Hfound : forall r2 rs2, FaSane r2 -> st r2 <> FNew ->
+  { inversion H; subst. split; [right; exact S|discriminate]. }
+  destruct (fa_state_eqb (st r) FFinished); [inversion H; subst; split; [right; exact S|discriminate]|].
+  assert (Hfound : forall r2 rs2, FaOff r2 -> st r2 <> FNew ->
      (let rs3 := fa_set_put rs2 r2 in
       match fa_increment r2 with
       | None => (r2, rs3, LPanic 3)
@@ -197,14 +211,16 @@ Proof.
       end) = (r', rs', res) -> FaSane r' /\ (forall s, res <> LPanic s)).
   { intros r2 rs2 S2 Hn2 Hq. cbv zeta in Hq.
     destruct (fa_increment_sane r2 S2 Hn2) as (r4 & E4 & S4 & Hst4). rewrite E4 in Hq.
-    destruct (reached n (snpos (fa_set_put rs2 r2))); [inversion Hq; subst; split; [exact S4|discriminate]|].
+    destruct (reached n (snpos (fa_set_put rs2 r2))); [inversion Hq; subst; split; [right; exact S4|discriminate]|].
     apply (IH _ _ _ _ _ _ _ Hq S4). congruence. }
   destruct (fa_state_eqb (st r) FIncomplete).
   - destruct (fa_resume rfuel ffuel is_new r) as [r1 rr] eqn:E1.
     destruct (fa_resume_sane _ _ _ _ _ _ E1 S Hn) as (S1 & Hn1 & Hp1).
-    destruct rr as [[|]|e|s|]; try (inversion H; subst; split; [exact S1|discriminate]).
-    + apply (Hfound (if fa_state_eqb (st r1) FFinished then r1 else set_st r1 FPositioned) rs); [| |exact H].
-      * destruct (fa_state_eqb (st r1) FFinished); [exact S1|apply FaSane_set_st; [exact S1|discriminate]].
+    assert (Sane1 : FaSane r1) by (destruct S1 as [S1|[_ Hf]]; [right; exact S1|left; exact Hf]).
+    destruct rr as [[|]|e|s|]; try (inversion H; subst; split; [exact Sane1|discriminate]).
+    + destruct S1 as [S1|[[k Hk] _]]; [|discriminate Hk].
+      apply (Hfound (if fa_state_eqb (st r1) FFinished then r1 else set_st r1 FPositioned) rs); [| |exact H].
+      * destruct (fa_state_eqb (st r1) FFinished); [exact S1|apply FaOff_set_st; [exact S1|discriminate]].
       * destruct (fa_state_eqb (st r1) FFinished); [exact Hn1|discriminate].
     + exfalso; apply (Hp1 s); reflexivity.
   - destruct (fa_search r) as [r1 sr] eqn:E1. destruct (fa_search_sane _ _ _ E1 S Hn) as (S1 & Hn1 & Hp1).
@@ -212,14 +228,15 @@ Proof.
     + apply (Hfound r1 rs S1 Hn1 H).
     + destruct (snpos rs =? 0); [apply (IH _ _ _ _ _ _ _ H S1 Hn1)|].
       destruct (below n (snpos rs)); [apply (IH _ _ _ _ _ _ _ H S1 Hn1)|].
-      inversion H; subst. split; [exact S1|discriminate].
+      inversion H; subst. split; [right; exact S1|discriminate].
 Qed.
 
 Theorem fa_read_set_sane fuel ffuel n r rs r' rs' o : fa_read_set fuel ffuel n r rs = (r', rs', o) -> FaSane r ->
   FaSane r' /\ (forall s, o <> OPanic s).
 Proof.
-  unfold fa_read_set. intros H S.
-  assert (Hgo : forall r0, FaSane r0 -> st r0 <> FNew ->
+  unfold fa_read_set. intros H [Hfin|S].
+  { rewrite Hfin in H. inversion H; subst. split; [left; exact Hfin|discriminate]. }
+  assert (Hgo : forall r0, FaOff r0 -> st r0 <> FNew ->
      fa_set_finish (fa_set_loop fuel fuel ffuel n true r0 (mkFaSet (sbuf rs) (spositions rs) 0)) = (r', rs', o) ->
      FaSane r' /\ (forall s, o <> OPanic s)).
   { intros r0 S0 Hn0 Hq.
@@ -229,15 +246,18 @@ Proof.
     exfalso; apply (Hp1 s); reflexivity. }
   destruct (st r) eqn:Es.
   - destruct (fa_init fuel ffuel r) as [r1 ir] eqn:E1. pose proof (fa_init_sane _ _ _ _ _ E1 S Es) as Hi.
-    destruct ir as [[|]|e|]; try (inversion H; subst; split; [apply Hi|discriminate]).
+    destruct ir as [[|]|e|]; try (inversion H; subst; split; [right; apply Hi|discriminate]).
     apply (Hgo (set_st r1 FPositioned)); [apply Hi; discriminate|discriminate|exact H].
   - destruct (fa_increment_sane r S) as (r1 & E1 & S1 & Hst1); [congruence|]. rewrite E1 in H.
-    apply (Hgo (set_st r1 FPositioned)); [apply FaSane_set_st; [exact S1|discriminate]|discriminate|exact H].
+    apply (Hgo (set_st r1 FPositioned)); [apply FaOff_set_st; [exact S1|discriminate]|discriminate|exact H].
   - apply (Hgo r S); [congruence|exact H].
   - apply (Hgo r S); [congruence|exact H].
-  - inversion H; subst. split; [exact S|discriminate].
+  - inversion H; subst. split; [left; exact Es|discriminate].
 Qed.
 
+(** [seek] re-establishes the offsets whatever they were: the in-buffer shortcut
+    is taken only for a target inside the buffer, the real seek empties the
+    buffer; a failed source seek changes nothing but source and log *)
 Theorem fa_seek_sane ffuel r line byte_ r' o : fa_seek ffuel r line byte_ = (r', o) -> FaSane r ->
   FaSane r' /\ (forall s, o <> OPanic s).
 Proof.
@@ -245,17 +265,17 @@ Proof.
   destruct ((0 <=? Z.of_nat (start r) + (Z.of_nat byte_ - Z.of_nat (pbyte r)))%Z &&
             (Z.of_nat (start r) + (Z.of_nat byte_ - Z.of_nat (pbyte r)) <? Z.of_nat (length (buf r)))%Z) eqn:Ec.
   { apply andb_true_iff in Ec. destruct Ec as [E1 E2]. apply Z.leb_le in E1. apply Z.ltb_lt in E2.
-    inversion H; subst. split; [|discriminate]. unfold FaSane. fa_simpl. splits; auto; try lia.
+    inversion H; subst. split; [|discriminate]. right. unfold FaOff. fa_simpl. splits; auto; try lia.
     intros Hx; discriminate Hx. }
   destruct (src_seek (src r) byte_) as [s' res] eqn:Es.
   destruct res as [k|].
-  { inversion H; subst. split; [exact S|discriminate]. }
+  { inversion H; subst. split; [|discriminate]. destruct S as [Hf|S]; [left; exact Hf|right; exact S]. }
   match type of H with (let '(r1, fr) := fa_fill ffuel ?R in _) = _ => set (r0 := R) in * end.
-  assert (S0 : FaSane r0).
-  { unfold FaSane, r0. fa_simpl. cbn [length]. splits; auto; try (intros Hx; discriminate Hx). }
+  assert (S0 : FaOff r0).
+  { unfold FaOff, r0. fa_simpl. cbn [length]. splits; auto; try (intros Hx; discriminate Hx). }
   destruct (fa_fill ffuel r0) as [r1 fr] eqn:E1. destruct (fa_fill_sane _ _ _ _ E1 S0) as [S1 _].
-  destruct fr; inversion H; subst; split; auto; try discriminate.
-  apply FaSane_set_st; [exact S1|discriminate].
+  destruct fr; inversion H; subst; (split; [|discriminate]); try (right; exact S1).
+  left. reflexivity.
 Qed.
 
 Lemma fa_set_policy_sane r p : FaSane r -> FaSane (fa_set_policy r p).
